@@ -5,6 +5,9 @@
 import Pk.Driver.C17
 import Pk.Driver.Mgr
 import Pk.Driver.C15
+import Pk.Driver.C18
+import Pk.Driver.C05
+import Pk.Driver.C08
 import Pk.Driver.C11
 import Pk.Driver.C19
 
@@ -13,6 +16,11 @@ def main (args : List String) : IO UInt32 := do
   | ["c17"] => Pk.Driver.C17.main; return 0
   | ["c19"] => Pk.Driver.C19.main; return 0
   | ["c11"] => Pk.Driver.C11.main; return 0
+  | ["c18"] => Pk.Driver.C18.main false; return 0
+  | ["c18-old"] => Pk.Driver.C18.main true; return 0
+  | ["c05"] => Pk.Driver.C05.main; return 0
+  | ["c08"] => Pk.Driver.C08.main; return 0
+  | ["c05-full"] => Pk.Driver.C05.mainWith 1000000000; return 0
   | ["c15"] => Pk.Driver.C15.main; return 0
   | "mgr" :: convs => Pk.Driver.Mgr.main convs; return 0
   | _ =>
